@@ -28,11 +28,11 @@ def well_formed():
     return [h + ':' + m for h in hours for m in minutes]
 
 
-def accepted_by_compiler(world, text):
+def accepted_by_compiler(world, text, before=''):
     from bardolph.parser.parse import Parser
     parser = Parser()
     try:
-        return bool(parser.parse('time at %s wait' % text)), None
+        return bool(parser.parse('%stime at %s wait' % (before, text))), None
     except BaseException as ex:          # an internal error is C06's business; here it is "not accepted"
         return False, ex
 
@@ -151,6 +151,31 @@ def run(report, replay=None):
                     rows[r]['accepted_but_unrunnable'] = True
         else:
             for r, minutes in zip(chunk, got):
+                rows[r]['minutes'] = minutes
+    # the same strings as the value of a macro (`define T p` ... `time at T`): a pattern is checked wherever it is written
+    via_macro = singles[rng.randrange(5)::5] if tier != 'thorough' else singles
+    via_macro = via_macro + [m for m in sorted(set(malformed) - wf) if ':' in m][:400]
+    accepted_m = []
+    for text in via_macro:
+        ok, _ = accepted_by_compiler(world, 'T0', 'define T0 %s\n' % text)
+        rid = len(rows)
+        texts[rid] = 'define T0 %s time at T0' % text
+        rows.append({'id': rid, 'kind': 'single', 'chars': codes(text), 'accepted': ok, 'minutes': []})
+        if ok:
+            accepted_m.append((rid, text))
+    for pos in range(0, len(accepted_m), 100):
+        chunk = accepted_m[pos:pos + 100]
+        script = '\n'.join('define T%d %s\ntime at %sT%d wait' % (k, text, '4:44 or ' if k % 3 == 0 else '', k) for k, (r, text) in enumerate(chunk))
+        got = minute_sets(world, [script])[0]
+        for k, (r, text) in enumerate(chunk):
+            minutes = got[k] if got is not None and k < len(got) else None
+            if minutes is None:
+                rows[r]['accepted_but_unrunnable'] = True
+            elif k % 3 == 0:
+                # used after `4:44 or`: the alternative's minute (284) is not the macro's - unless the macro matches it too
+                rows[r].update(kind='or', pats=[codes('4:44'), codes(text)], minutes=minutes)
+                del rows[r]['chars'], rows[r]['accepted']
+            else:
                 rows[r]['minutes'] = minutes
     n_single = len(rows)
 
